@@ -663,6 +663,37 @@ def rule_mode_independence(rep: Report, repo: Repo, rule: str) -> None:
     rep.floor(rule, 6, "processing decisions in the walk")
 
 
+def rule_always_regenerates(rep: Report, repo: Repo, rule: str) -> None:
+    """document_single_file() parses and renders its file on every call: no return before the processing, no decision taken
+    from the state of the output location (existence, time stamps) or from earlier runs."""
+    rep.rule(rule, "document_single_file() has no return (or other exit) before the Documenter has processed the file, and "
+                   "consults no time stamp / existence of the output: the page always reflects the file as it is now")
+    dm = DocumentModel(repo)
+    fn = dm.single
+    where = f"{MOD}:document_single_file"
+    order = {id(x): i for i, x in enumerate(_dfs_nodes(fn))}
+    proc = [c for c in calls_in(fn) if isinstance(c.func, ast.Attribute) and c.func.attr == "process"]
+    if not proc:
+        raise AnalysisError("anchor vanished: document_single_file() does not call <Documenter>.process()")
+    first = min(order[id(c)] for c in proc)
+    early = [n for n in ast.walk(fn) if isinstance(n, ast.Return) and order[id(n)] < first]
+    rep.check(not early, rule, where, f"{len(early)} return statement(s) before process()",
+              "the file is not always parsed and rendered: a stale or missing page, and errors in the file go unreported",
+              witness="second run after the source was replaced by a revision with an older time stamp")
+    stat_calls = [c for c in calls_in(fn) if call_name(c) in ("os.path.getmtime", "os.path.getctime", "os.path.getatime", "os.stat", "os.path.getsize")
+                  or call_name(c).endswith(".stat") or call_name(c).endswith(".st_mtime")]
+    rep.check(not stat_calls, rule, where, f"{len(stat_calls)} time stamp / stat call(s)",
+              "the result depends on file time stamps: the same inputs give different outputs depending on the history of the "
+              "output directory")
+    rep.floor(rule, 2, "regeneration facts")
+
+
+def _dfs_nodes(node: ast.AST):
+    yield node
+    for ch in ast.iter_child_nodes(node):
+        yield from _dfs_nodes(ch)
+
+
 def rule_pages_not_skipped(rep: Report, repo: Repo, rule: str) -> None:
     rep.rule(rule, "inside the walk, the call that produces a page is not wrapped in an exception handler that continues: a file "
                    "that is listed in the index is documented, or the run fails")
